@@ -22,6 +22,7 @@ import (
 	"syscall"
 
 	"github.com/gopatchy/bkl"
+	toml "github.com/pelletier/go-toml/v2"
 	"simrt"
 	"wire"
 )
@@ -263,6 +264,45 @@ func shareObject(root any, from, to []string) any {
 	return root
 }
 
+// realise turns the wire's descriptions of typed scalars into the values a
+// decoder leaves in a tree (TOML has native dates and times): a caller that
+// decoded a file itself hands such values to MergeDocument.
+func realise(v any) any {
+	switch x := v.(type) {
+	case map[string]any:
+		for k, e := range x {
+			x[k] = realise(e)
+		}
+		return x
+	case []any:
+		for i, e := range x {
+			x[i] = realise(e)
+		}
+		return x
+	case wire.Opaque:
+		switch x.Type {
+		case "toml.LocalDate":
+			var d toml.LocalDate
+			if d.UnmarshalText([]byte(x.Repr)) == nil {
+				return d
+			}
+		case "toml.LocalTime":
+			var d toml.LocalTime
+			if d.UnmarshalText([]byte(x.Repr)) == nil {
+				return d
+			}
+		case "toml.LocalDateTime":
+			var d toml.LocalDateTime
+			if d.UnmarshalText([]byte(x.Repr)) == nil {
+				return d
+			}
+		}
+		fmt.Fprintf(os.Stderr, "worker: cannot realise %s %q\n", x.Type, x.Repr)
+		os.Exit(3)
+	}
+	return v
+}
+
 type faultWriter struct {
 	kind string
 	k    int
@@ -332,7 +372,7 @@ func runOp(ts *taskState, op *wire.Op) (r wire.OpResult) {
 	case "MergeDocument":
 		var data any
 		if op.Data != nil {
-			data = op.Data.V
+			data = realise(op.Data.V)
 		}
 		for _, pr := range op.Share {
 			data = shareObject(data, pr[0], pr[1])
